@@ -53,6 +53,18 @@ type upgradeScenario struct {
 	TailSteps    []world.Step `json:"tail_steps"`
 }
 
+// tailStops counts the stop points taken after the upgrade block.
+func (sc *upgradeScenario) tailStops() int {
+	n := 0
+	for _, s := range sc.TailSteps {
+		switch s.Kind {
+		case "crash", "crash_redeliver", "crash_endblock", "restart":
+			n++
+		}
+	}
+	return n
+}
+
 // runUpgrade executes a scenario. withRestarts=false runs the same blocks without any stop
 // (except the unavoidable binary switch) and returns the app hash per height.
 func runUpgrade(cfg *MachineCfg, sc *upgradeScenario, gen func(w *world.World, tail bool) *world.Step, withRestarts bool) (w *world.World, hashes map[int64]string, err error) {
@@ -104,6 +116,7 @@ func runUpgrade(cfg *MachineCfg, sc *upgradeScenario, gen func(w *world.World, t
 		return w, hashes, vio19("%v", err)
 	}
 	w.Blocks = append(w.Blocks, &world.BlockRec{DT: 5, Hook: fmt.Sprintf("schedule:%d", planHeight), Height: w.C.Height, Hash: w.C.App.LastCommitID().Hash})
+	w.SyncCommitted()
 	record()
 	for w.C.Height < planHeight-1 {
 		if err := w.Apply(world.Step{Kind: "commit", DT: 5}); err != nil {
@@ -177,6 +190,7 @@ func runUpgrade(cfg *MachineCfg, sc *upgradeScenario, gen func(w *world.World, t
 		return w, hashes, vio19("Commit of the upgrade block: %v", err)
 	}
 	w.Blocks = append(w.Blocks, &world.BlockRec{DT: 5, Hook: "upgrade", Height: w.C.Height, Hash: w.C.App.LastCommitID().Hash})
+	w.SyncCommitted()
 	record()
 	if withRestarts && sc.RestartAfter {
 		if err := w.C.Reopen(); err != nil {
@@ -291,8 +305,23 @@ func vio19(f string, a ...interface{}) error {
 	return &world.Violation{Prop: "C19", Msg: fmt.Sprintf(f, a...)}
 }
 
-func TestC19(t *testing.T) {
-	cfg := CfgC19
+func TestC19(t *testing.T) { upgradePlan(t, CfgC19, 8) }
+
+// CfgC10PostUpgrade: C10's stop points on a chain whose history contains an applied software
+// upgrade (previous release -> halt -> this release), weighted to the blocks after it.
+var CfgC10PostUpgrade = &MachineCfg{
+	Prop: "C10", Also: agreement,
+	Gens: withGens("commit", 14, "crash", 6, "crash_redeliver", 7, "crash_endblock", 4, "restart", 6),
+	Bias: map[string]int{"right-signers": 92, "exec": 3, "right-proof": 80},
+	Rule: "",
+}
+
+// TestC10PostUpgrade runs the upgrade scenario for C10: every stop point of C10 (after Commit,
+// inside a block, after EndBlock) is also taken in the blocks that follow an applied upgrade,
+// and the committed blocks are replayed on instances that never stopped.
+func TestC10PostUpgrade(t *testing.T) { upgradePlan(t, CfgC10PostUpgrade, 16) }
+
+func upgradePlan(t *testing.T, cfg *MachineCfg, tailSteps int) {
 	rapid.Check(t, func(rt *rapid.T) {
 		g := &G{T: rt, Bias: cfg.Bias}
 		sc := &upgradeScenario{}
@@ -301,7 +330,7 @@ func TestC19(t *testing.T) {
 		sc.RestartAt = pick(g, "restart-at", []string{"", "", "redeliver", "endblock"})
 		sc.RestartAfter = g.chance("restart-after", 40)
 		n1 := 8 + g.intn("pre-steps", 24)
-		n2 := 2 + g.intn("tail-steps", 8)
+		n2 := 2 + g.intn("tail-steps", tailSteps)
 		k := 0
 		gen := func(w *world.World, tail bool) *world.Step {
 			g.W = w
@@ -318,10 +347,10 @@ func TestC19(t *testing.T) {
 		}
 		fail := func(w *world.World, err error) {
 			if p := os.Getenv("VERIF_REPLAY_OUT"); p != "" {
-				bz, _ := json.MarshalIndent(map[string]interface{}{"property": "C19", "kind": "upgrade", "scenario": sc, "violation": err.Error()}, "", " ")
+				bz, _ := json.MarshalIndent(map[string]interface{}{"property": cfg.Prop, "kind": "upgrade", "scenario": sc, "violation": err.Error()}, "", " ")
 				_ = os.WriteFile(p, bz, 0o644)
 			}
-			rt.Fatalf("ORACLE C19: %v", err)
+			rt.Fatalf("ORACLE %s: %v", cfg.Prop, err)
 		}
 		w, h1, err := runUpgrade(cfg, sc, gen, true)
 		if err != nil {
@@ -335,6 +364,9 @@ func TestC19(t *testing.T) {
 		_ = h1
 		nt := lab(w, "aol topic created") > 0 && lab(w, "did created") > 0 && lab(w, "pnft denom created") > 0 &&
 			lab(w, "c19 restart before the upgrade")+lab(w, "c19 restart at the upgrade height")+lab(w, "c19 restart after the upgrade") > 0
+		if cfg.Prop == "C10" {
+			nt = lab(w, "c19 restart after the upgrade")+lab(w, "c19 restart at the upgrade height") > 0 || sc.tailStops() > 0
+		}
 		cfgc := *cfg
 		cfgc.NonTrivial = func(*world.World) bool { return nt }
 		recordCase(&cfgc, w)
@@ -345,13 +377,18 @@ func init() {
 	Machines["C19"] = CfgC19
 	otherReplays["upgrade"] = func(t *testing.T, raw []byte) {
 		var doc struct {
+			Property string          `json:"property"`
 			Scenario upgradeScenario `json:"scenario"`
 		}
 		if err := json.Unmarshal(raw, &doc); err != nil {
 			t.Fatal(err)
 		}
-		if _, _, err := runUpgrade(CfgC19, &doc.Scenario, nil, true); err != nil {
-			fmt.Printf("REPLAY-VIOLATION property=C19 %v\n", err)
+		cfg := CfgC19
+		if doc.Property == "C10" {
+			cfg = CfgC10PostUpgrade
+		}
+		if _, _, err := runUpgrade(cfg, &doc.Scenario, nil, true); err != nil {
+			fmt.Printf("REPLAY-VIOLATION property=%s %v\n", cfg.Prop, err)
 			t.Fatalf("violation reproduced: %v", err)
 		}
 	}
